@@ -42,7 +42,7 @@ ASSUMPTIONS = [
   "exact-fit pass: the capacities are the row/contact counts MJWarp itself reported with spare capacity; a pass in which "
   "any overflow bit is raised or no world is exactly full is not counted as exact-fit coverage",
 ]
-BUDGET = {"quick": 130, "thorough": 1200}
+BUDGET = {"quick": 300, "thorough": 1200}
 
 CONDIMS = (1, 3, 4, 6)
 
